@@ -501,7 +501,12 @@ func (aof *AppendableFile) readAt(bs []byte, off int64) (n int, err error) {
 	var boff int
 
 	if off < aof.fileOffset {
-		n, err = aof.f.ReadAt(bs, aof.fileBaseOffset+off)
+		// the file may be longer than the log (e.g. after a rewind): only read what belongs to the log
+		fbs := bs
+		if int64(len(fbs)) > aof.fileOffset-off {
+			fbs = bs[:aof.fileOffset-off]
+		}
+		n, err = aof.f.ReadAt(fbs, aof.fileBaseOffset+off)
 	} else {
 		boff = int(off - aof.fileOffset)
 	}
